@@ -667,6 +667,21 @@ pub fn c07(seed: u64, thorough: bool) -> Scenario {
     if b.sc.bounds.deaf.is_none() && b.r.chance(0.4) {
         b.clock_jumps(2);
     }
+    // One of the other nodes crashes around the heal (within f): from then on the lagging node's
+    // votes are needed, every request to the crashed node stays unanswered, and each timed-out
+    // round brings another block on top of the same missing parent.
+    if b.sc.bounds.deaf.is_none() && b.r.chance(0.25) {
+        // Content-triggered crash: the author of the first proposal that reaches the lagger
+        // after the heal dies at that instant.
+        b.sc.bounds.crash_first_proposer = true;
+        deaf_extra += 6 * b.t_us + 8_000_000;
+    } else if b.sc.bounds.deaf.is_none() && b.r.chance(0.4) {
+        let victim = (lagger + 1 + b.r.below(b.sc.n - 1)) % b.sc.n;
+        // Mostly right after the heal: the victim's proposals still reach the lagger, then it is gone.
+        let t = if b.r.chance(0.7) { heal + b.r.range(0, b.t_us) } else { b.r.range(heal.saturating_sub(b.t_us), heal + 3 * b.t_us) };
+        b.crash(victim, t);
+        deaf_extra += 4 * b.t_us;
+    }
     let retry = b.sc.params[0].sync_retry_delay * 1_000;
     let window = 6 * b.t_us + retry + 7_000_000;
     let reconnect = (2 * len).max(1_000_000).min(62_000_000);
@@ -718,7 +733,7 @@ pub fn puppet(profile: &str, seed: u64, thorough: bool) -> Scenario {
         p_equivocate: *b.r.pick(&[0.0, 0.1, 0.3]),
         p_gap: 0.1,
         p_future: 0.1,
-        p_withhold_parent: 0.1,
+        p_withhold_parent: if matches!(profile, "C07") { 1.0 } else { *b.r.pick(&[0.0, 0.1, 0.3]) },
         p_duplicate: *b.r.pick(&[0.0, 0.05, 0.2]),
         p_stale: *b.r.pick(&[0.0, 0.05, 0.15]),
         p_payload: *b.r.pick(&[0.0, 0.1, 0.3]),
